@@ -120,7 +120,7 @@ func c09Scenario(p c09P, b Bounds) *Scenario {
 				}
 				if p.Notify {
 					j.Go("notify", func() {
-						err := srv.Notify(context.Background(), "pushed", []int{1})
+						err := srv.Notify(context.Background(), "pushed\x01\a\v\x7f\U000e0001\u2028", []int{1})
 						vs.Yield("ret")
 						vs.Note("ret", "Notify", errStr(err))
 					})
